@@ -130,7 +130,11 @@ class Recorder:
                 exc_ = rec.failpoints.inside_spsq(stage=rec.stage, step=ctx0["step"], n=ctx0["spsq_calls"])
                 if exc_ is not None:
                     kw = dict(kw, psi_laplacian=_RaisingOperator(kw["psi_laplacian"], exc_))
-            res = o_spsq(**kw)
+            refuse_ = False
+            if ctx0 is not None and rec.failpoints is not None and hasattr(rec.failpoints, "refuse_spsq"):
+                # an injected REFUSAL (the method's documented 'no solution for this dt' answer), e.g. in a later screening iteration
+                refuse_ = bool(rec.failpoints.refuse_spsq(stage=rec.stage, step=ctx0["step"], n=ctx0["spsq_calls"], screening_iteration=ctx0["screen_iters"]))
+            res = None if refuse_ else o_spsq(**kw)
             ctx = rec.cur
             if ctx is not None:
                 ctx["spsq_calls"] += 1
